@@ -137,6 +137,15 @@ def r2_enders(ctx):
         reach = F.reach_from([c for bi, t in fe for c in t['cls']])
         short = fname.split('::')[-1]
         r.check(bool(fe), '%s|for_each' % short, f.file, '%s iterates the store' % short)
+        # the walk happens on every non-error path: it is not nested under "no error recorded yet" or any other test
+        # (a recorded conn_error does not mean every stream was told: recv_go_away records one and leaves streams alive)
+        fes = [bi for bi, t in fe]
+        exits, ins, parent = core.scan(f, 0, None, lambda us, bi, t: 1 if bi in fes else us)
+        for (bi, us, rc, st) in exits:
+            if rc.startswith('Err') or rc == 'Err':
+                continue
+            r.check(us == 1, '%s|walk-on-every-path|%s' % (short, rc), f.loc(bi), '%s exit %s %s the per-stream walk' % (short, rc, 'passed' if us == 1 else 'SKIPPED'),
+                    witness=core.compress_path(f, [x['bb'] for x in core.witness_path(f, parent, bi, st)]))
         r.check(closer in reach, '%s|recv-closer' % short, f.file, '%s reaches %s for every stream' % (short, closer.split('::')[-1]))
         r.check(P + 'send::Send::handle_error' in reach, '%s|send-closer' % short, f.file, '%s reaches Send::handle_error for every stream' % short)
         r.check(P + 'counts::Counts::transition' in reach, '%s|transition' % short, f.file, 'the per-stream closure runs inside Counts::transition')
@@ -249,8 +258,9 @@ def r5_drop(ctx):
 
 
 def r6_complete_messages(ctx):
-    r = ctx.rule('C07.R6', 'TSTATE', 'a stream that already received END_STREAM still delivers after a reset (ErrorAfterEndStream -> ensure_recv_open = Ok(false))')
+    r = ctx.rule('C07.R6', 'TSTATE', 'a stream that already received END_STREAM still delivers after a reset (ErrorAfterEndStream -> ensure_recv_open = Ok(false)); a connection error / EOF closes every live state and leaves closed ones as they are')
     F = ctx.facts
+    tstate.enders(r, F)
     from ..rfcstates import E, SI, CA
     it = absint.Interp(F, models=RS.models(), inline={RS.ST + '::is_recv_end_stream'})
     rr = r.fn(tstate.SP + 'recv_reset')
